@@ -72,6 +72,7 @@ OerEnc(env, T0, v) ==
     [] T.k = "OID" -> WithLen(OidContents(v))
     [] T.k = "RELOID" -> WithLen(RelOidContents(v))
     [] T.k \in {"SEQUENCE", "SET"} -> OerSeqLike(env, T, v)
+    [] T.k = "OPEN" -> WithLen(OerEnc(env, CompByName(T, AltOf(v)).t, AltVal(v)))           \* open type: length + encoding
     [] T.k = "CHOICE" ->
          LET c == CompByName(T, AltOf(v))
              inRoot == \E i \in DOMAIN T.comps : T.comps[i].n = AltOf(v)
